@@ -1,17 +1,52 @@
+(* the pieces a value is streamed in: same cutting as cut() of harness/C15_codecs.cpp *)
+let cut_pieces (l : n list) (cuts : string) : n list list =
+  let a = Array.of_list l in
+  let n = Array.length a in
+  let pos = ref 0 in
+  let ps = List.map (fun t -> let k = min (int_of_string t) (n - !pos) in
+                              let p = Array.to_list (Array.sub a !pos k) in pos := !pos + k; p)
+             (String.split_on_char ',' cuts) in
+  ps @ [Array.to_list (Array.sub a !pos (n - !pos))]
+(* FORM_KINDS of checks/C15.py, same order: the position is the kind number of Defs.widget_ctx *)
+let form_kinds = ["text_value"; "text_value_input"; "textarea_value"; "hidden_value"; "message"; "help"; "error_message";
+                  "checkbox_ident"; "submit_value"; "select_id"; "select_text"; "select_tr_text"; "multi_id"; "multi_text";
+                  "multi_tr_text"; "radio_id"; "radio_text"; "radio_tr_text"; "message_label"]
+let kind_index k = let rec go i = function [] -> 99 | x :: r -> if x = k then i else go (i+1) r in go 0 form_kinds
 let () = main_loop (function
   | ["esc"; h] -> "esc " ^ hex_of_bytes (escape (bytes_of_hex h))
   | ["escs"; room; h] ->
       let (o, ok) = escape_stream (nat_of_int (int_of_string room)) (bytes_of_hex h) in
       "escs " ^ hex_of_bytes o ^ " " ^ string_of_bool ok
+  | ["uencs"; room; h] ->
+      let (o, ok) = urlencode_stream (nat_of_int (int_of_string room)) (bytes_of_hex h) in
+      "uencs " ^ hex_of_bytes o ^ " " ^ string_of_bool ok
   | ["uenc"; h] -> "uenc " ^ hex_of_bytes (urlencode (bytes_of_hex h))
   | ["udec"; h] -> "udec " ^ hex_of_bytes (urldecode (bytes_of_hex h))
   | ["benc"; h] -> "benc " ^ hex_of_bytes (encode_str (bytes_of_hex h))
-  | ["bdec"; h] -> (match decode_str (bytes_of_hex h) with None -> "bdec invalid" | Some o -> "bdec " ^ hex_of_bytes o)
+  | ["bdec"; h] -> (match decode_str (bytes_of_hex h) with None -> "bdec invalid" | Some o -> "bdec " ^ hex_of_bytes o ^ " c=" ^ string_of_bool (b64_canonical (bytes_of_hex h)))
   | ["bdecp"; h] -> "bdecp " ^ hex_of_bytes (b64decode (bytes_of_hex h))
-  | ["pcs"; "esc"; _; h] -> "pcs " ^ hex_of_bytes (escape (bytes_of_hex h))
-  | ["pcs"; "uenc"; _; h] -> "pcs " ^ hex_of_bytes (urlencode (bytes_of_hex h))
-  | ["pcs"; "benc"; _; h] -> "pcs " ^ hex_of_bytes (encode_str (bytes_of_hex h))
-  | ["form"; _; _; h] -> "form " ^ hex_of_bytes (escape (bytes_of_hex h))
+  | ["pcs"; "esc"; cuts; h] -> "pcs " ^ hex_of_bytes (filter_escape (cut_pieces (bytes_of_hex h) cuts))
+  | ["pcs"; "uenc"; cuts; h] -> "pcs " ^ hex_of_bytes (filter_urlencode (cut_pieces (bytes_of_hex h) cuts))
+  | ["pcs"; "benc"; cuts; h] -> "pcs " ^ hex_of_bytes (filter_base64 (cut_pieces (bytes_of_hex h) cuts))
+  | ["pcsf"; op; room; cuts; h] ->
+      let ps = cut_pieces (bytes_of_hex h) cuts and r = nat_of_int (int_of_string room) in
+      let ((o, rel), st) = (match op with
+         | "esc" -> (filter_escape_sink r ps, filter_escape_stream_ok r ps)
+         | "uenc" -> (filter_urlencode_sink r ps, filter_urlencode_stream_ok r ps)
+         | _ -> (filter_base64_sink r ps, filter_base64_stream_ok r ps)) in
+      "pcsf " ^ hex_of_bytes o ^ " st=" ^ string_of_bool st ^ " rel=" ^ string_of_bool rel
+  | ["strf"; _; _] -> "strf - st=0"   (* escape(b,e,ostream&) returns at once; ostream_iterator / write on a failed stream do nothing *)
+  | ["pcsb"; op; h] ->
+      let f = (match op with "esc" -> escape | "uenc" -> urlencode | _ -> encode_str) in
+      let (o, st) = filter_on_failed_stream f (bytes_of_hex h) in
+      "pcsb " ^ hex_of_bytes o ^ " st=" ^ string_of_bool st
+  | ["formfull"; kind; mode; h] ->
+      let k = n_of_int (kind_index kind) and m = n_of_int (int_of_string mode) in
+      let ph = List.map (fun c -> byte_tab.(Char.code c)) (List.of_seq (String.to_seq "ZqPLACEHOLDERqZ")) in
+      (match render_full k m (bytes_of_hex h), render_full k m ph with
+       | Some r, Some r0 -> "formfull " ^ hex_of_bytes r ^ " " ^ hex_of_bytes r0 | _ -> "formfull unsupported")
+  | ["form"; kind; _; h] -> "form " ^ hex_of_bytes (escape (bytes_of_hex h)) ^ " " ^
+                            (match widget_ctx (n_of_int (kind_index kind)) with AttrDq -> "A" | ElemText -> "E")
   | ["esz"; n] -> "esz " ^ string_of_int (int_of_n (encoded_size (n_of_int (int_of_string n))))
   | ["dsz"; n] -> (match decoded_size (n_of_int (int_of_string n)) with None -> "dsz -1" | Some d -> "dsz " ^ string_of_int (int_of_n d))
   | _ -> "BAD-CASE")
